@@ -1625,6 +1625,17 @@ int32 parseServerHello(ssl_t *ssl, int32 hsLen, unsigned char **cp,
                 ssl->sessionIdLen = (unsigned char) sessionIdLen;
                 Memcpy(ssl->sessionId, c, sessionIdLen);
                 ssl->flags &= ~SSL_FLAGS_RESUMED;
+# ifdef USE_STATELESS_SESSION_TICKETS
+                /* RFC 5077 3.4: a server that accepts the ticket MUST echo
+                    the session id of the ClientHello.  It did not, so the
+                    ticket is not in use either: do not wait for an
+                    abbreviated handshake (the master secret is gone) */
+                if (ssl->sid && ssl->sid->sessionTicketState ==
+                    SESS_TICKET_STATE_SENT_TICKET)
+                {
+                    ssl->sid->sessionTicketState = SESS_TICKET_STATE_SENT_EMPTY;
+                }
+# endif
 # ifdef USE_MATRIXSSL_STATS
                 matrixsslUpdateStat(ssl, FAILED_RESUMPTIONS_STAT, 1);
 # endif
@@ -1664,6 +1675,14 @@ int32 parseServerHello(ssl_t *ssl, int32 hsLen, unsigned char **cp,
             ssl->sessionIdLen = 0;
             Memset(ssl->sessionId, 0x0, SSL_MAX_SESSION_ID_SIZE);
             ssl->flags &= ~SSL_FLAGS_RESUMED;
+# ifdef USE_STATELESS_SESSION_TICKETS
+            /* See above: no echo of our session id, no ticket resumption */
+            if (ssl->sid && ssl->sid->sessionTicketState ==
+                SESS_TICKET_STATE_SENT_TICKET)
+            {
+                ssl->sid->sessionTicketState = SESS_TICKET_STATE_SENT_EMPTY;
+            }
+# endif
 # ifdef USE_MATRIXSSL_STATS
             matrixsslUpdateStat(ssl, FAILED_RESUMPTIONS_STAT, 1);
 # endif
